@@ -12,7 +12,11 @@ POST_HOC = {'C02-a': 'C02.FRAME reformulated (first version fired for the wrong 
             'C27-a': 'C27.RECONEOS / C03.EOS link 5', 'C06-a': 'C06.ACC16', 'C07-a': 'C07.SATSIGN', 'C09-a': 'C09.PROGRESS coordinate frame',
             'C10-c': 'C10.TILESIZE', 'C14-c': 'C14.1b-NESTED', 'C18-c': 'C18 clamp helpers + narrowing (first flagged for the wrong reason: unknown helper; corrected)',
             'C20-c': 'C20.OFF chain extended to the mode-decision levels', 'C21-c': 'C21.LAYOUT', 'C12-c': 'C12.ACCUM (C16.ERR caught it blind)',
-            'C16-c': 'C16.TEARDOWN (C15.SHUT caught it blind)'}
+            'C16-c': 'C16.TEARDOWN (C15.SHUT caught it blind)',
+            'C02-c': 'C02.APIEFFECT (first run ended analysis-broken: the serialiser was looked up by name; now structural)',
+            'C05-b': 'C05.SCRATCH (missed by every check until round 7)', 'C06-b': 'C07/C06.SATSIGN extended to signed packs and made flow-sensitive',
+            'C07-b': 'C07.ACC16: the rule existed (C06.ACC16 caught it blind); it is now reported under C07 too',
+            'C26-b': 'C26.SOURCE presence predicates (first run ended analysis-broken: the selector was looked up by the flag name)'}
 rows = []
 for f in sorted(glob.glob(os.path.join(HERE, 'seeded', '*', 'meta.json'))):
     m = json.load(open(f)); sid = os.path.basename(os.path.dirname(f))
